@@ -15,6 +15,8 @@ import (
 	"sync"
 	"syscall"
 
+	v2 "github.com/hydraide/hydraide/app/core/hydra/swamp/chronicler/v2"
+
 	"verifharness/systrace"
 )
 
@@ -125,6 +127,38 @@ func Exec(h *History, root string) (res *ExecResult) {
 			if err := s.Chron.ForceCompaction(); err != nil {
 				sr.Err = err.Error()
 			}
+		case "plant":
+			// a leftover file next to the storage file (e.g. ".compact" from an interrupted compaction)
+			if err := os.WriteFile(HydFile(path)+st.File, st.Data, 0o644); err != nil {
+				sr.Err = err.Error()
+			}
+		case "cli":
+			// what hydraidectl compact does (compactSwamp = NewCompactor(...).Compact()), on a closed swamp
+			if s != nil {
+				_ = s.Chron.Close()
+				s = nil
+			}
+			hyd := HydFile(path)
+			var cerr error
+			switch st.File {
+			case "force":
+				_, cerr = v2.NewCompactor(hyd, v2.DefaultMaxBlockSize, 0.3).ForceCompact()
+			case "ifneeded":
+				_, cerr = v2.NewCompactor(hyd, v2.DefaultMaxBlockSize, 0.3).CompactIfNeeded()
+			case "dir":
+				var rs map[string]*v2.CompactionResult
+				rs, cerr = v2.CompactDirectory(filepath.Dir(hyd), v2.DefaultMaxBlockSize, 0.3)
+				for _, r := range rs {
+					if r != nil && r.Error != nil && cerr == nil {
+						cerr = r.Error
+					}
+				}
+			default:
+				_, cerr = v2.NewCompactor(hyd, v2.DefaultMaxBlockSize, 0.3).Compact()
+			}
+			if cerr != nil {
+				sr.Err = cerr.Error()
+			}
 		case "limit":
 			lim := syscall.Rlimit{Cur: uint64(st.N), Max: unlimited.Max}
 			if err := syscall.Setrlimit(syscall.RLIMIT_FSIZE, &lim); err != nil {
@@ -186,6 +220,7 @@ type Traced struct {
 // under the strace recorder, with extra strace arguments (fault injection) and
 // the given pre-existing files (relative to root). It returns the parsed log.
 func Trace(h *History, root string, initial map[string][]byte, extraStrace []string, single bool) (*Traced, error) {
+	h.Normalize()
 	if err := os.MkdirAll(filepath.Dir(SwampPath(root)), 0o755); err != nil {
 		return nil, err
 	}
